@@ -1,4 +1,4 @@
-(** Soundness for fragment F0: the candidate of every in-range key is a valid
+(** Soundness for fragment F1 (factors and crossing; the constraints are in Frag1Cons.v): the candidate of every in-range key is a valid
     trial sequence of the reference semantics.  Proof file. *)
 From Coq Require Import ZArith List Bool Arith Lia.
 From SP Require Import Design.Flat Design.Layout Design.Sem Comb.CombModel Comb.CombSpec Random.Enum Random.Frag
@@ -52,7 +52,7 @@ Qed.
 
 Section F0V.
 Variable fb : flat.
-Hypothesis HF : frag0 fb = true.
+Hypothesis HF : frag1 fb = true.
 Hypothesis Hq : 0 < f0_q fb.
 
 Local Notation c := (the_crossing fb).
@@ -60,7 +60,7 @@ Local Notation n := (length (fl_design fb)).
 Local Notation q := (f0_q fb).
 Local Notation T := (fl_trials fb).
 Local Notation lo := (f0_leftover fb).
-Local Notation prod := (Enum.product (map (all_levels fb) c)).
+Local Notation prod := (f0_cprod fb).
 Local Notation ubi := (f0_ubi fb).
 Local Notation S0 := (code_sem fb).
 
@@ -115,7 +115,7 @@ Proof.
   intros Hi Hj. unfold crossed_level.
   set (ls := nth (Z.to_nat (nth t perm 0%Z)) prod []).
   assert (Hls : In ls prod) by (apply nth_In; exact Hj).
-  apply product_In in Hls.
+  apply (f0_cprod_in_prod fb HF) in Hls. apply product_In in Hls.
   assert (Hil : i < length c) by (apply nth_error_Some; congruence).
   pose proof (Forall2_nth _ _ _ [] 0 i Hls ltac:(rewrite map_length; exact Hil)) as H. cbv beta in H.
   rewrite nth_indep with (d' := all_levels fb 0) in H by (rewrite map_length; exact Hil).
@@ -143,8 +143,11 @@ Proof.
     assert (Hjl : j < length ubi) by (apply nth_error_Some; congruence).
     pose proof (Forall2_nth _ _ _ 0 0%Z j Hc2 Hjl) as Hidx. cbv beta in Hidx.
     rewrite (nth_error_nth _ _ 0 Hj) in Hidx.
-    destruct (combo_of_spec fb HF Hq tc (nlevels fb g) (nth j c2 0%Z) Hidx) as (_ & Hcl & Hcd & _).
-    pose proof (Forall_nth' _ _ t 0%Z Hcd ltac:(lia)) as H. cbv beta in H. lia.
+    destruct (combo_of_spec fb HF Hq tc (length (f0_L fb g)) (nth j c2 0%Z) Hidx) as (_ & Hcl & Hcd & _).
+    pose proof (Forall_nth' _ _ t 0%Z Hcd ltac:(lia)) as H. cbv beta in H.
+    unfold lv_of. assert (Hin : In (nth (Z.to_nat (nth t (combo_of tc (length (f0_L fb g)) (nth j c2 0%Z)) 0%Z)) (f0_L fb g) 0) (f0_L fb g))
+      by (apply nth_In; lia).
+    apply (f0_L_spec fb HF) in Hin. apply Hin.
 Qed.
 
 
@@ -157,10 +160,7 @@ Qed.
 
 (** counting a combination in a block built from a duplicate-free index list *)
 Lemma prod_nodup : NoDup prod.
-Proof.
-  apply product_NoDup. intros l Hl. apply in_map_iff in Hl. destruct Hl as [f [E _]]. subst l.
-  unfold all_levels. apply seq_NoDup.
-Qed.
+Proof. apply (f0_cprod_nodup fb HF). Qed.
 
 Lemma count_in_block (perm : list Z) j :
   NoDup perm -> Forall (fun x => (0 <= x < Z.of_nat q)%Z) perm -> j < q ->
@@ -286,7 +286,7 @@ Lemma combo_at_f0 t : t < T -> combo_at s c t = map Some (nth t all_combos []).
 Proof.
   intros Ht. unfold combo_at.
   assert (Hin : In (nth t all_combos []) prod) by (apply all_combos_elem, nth_In; rewrite all_combos_length; exact Ht).
-  pose proof (product_length_elem _ _ Hin) as Hl. rewrite map_length in Hl.
+  pose proof (product_length_elem _ _ (f0_cprod_in_prod fb HF _ Hin)) as Hl. rewrite map_length in Hl.
   rewrite <- (map_nth_seq (nth t all_combos []) 0) at 1. rewrite Hl, map_map.
   rewrite <- (map_nth_seq c 0) at 1. rewrite map_map. apply map_ext_in. intros i Hi. apply in_seq in Hi.
   assert (Hg : nth_error c i = Some (nth i c 0)) by (apply nth_error_nth_ok; lia).
@@ -348,12 +348,14 @@ Proof.
     exact H.
 Qed.
 
-Theorem f0_valid : valid_b S0 s = true.
+(** factors and crossing are in order: validity reduces to the constraints *)
+Theorem f0_valid_base : valid_b S0 s = forallb (constraint_ok S0 s) (s_constraints S0).
 Proof.
   unfold valid_b. rewrite tseq_length, (f0_sem_factors_length fb HF), Nat.eqb_refl.
-  rewrite (f0_sem_crossings fb HF), (f0_sem_constraints fb HF). cbn [forallb andb].
+  rewrite (f0_sem_crossings fb HF). cbn [forallb andb].
   rewrite f0_crossing_ok. cbn [andb]. rewrite !andb_true_r.
-  apply forallb_forall. intros [f fd] Hin. cbn [fst snd].
+  replace (forallb (fun p => factor_ok S0 s (fst p) (snd p)) (index_list (s_factors S0))) with true; [reflexivity|].
+  symmetry. apply forallb_forall. intros [f fd] Hin. cbn [fst snd].
   unfold index_list in Hin. apply In_nth_error in Hin. destruct Hin as [i Hi].
   apply nth_error_combine in Hi. destruct Hi as [H1 H2].
   assert (f = i).
